@@ -49,7 +49,20 @@ REALISTIC = [20, 155, 244, 496, 512]
 def gen_plan(seed: int, tier: str) -> dict:
     r = random.Random(seed)
     x = r.random()
-    if x < 0.70:
+    if x < 0.22:
+        n = r.choice([1, 2, 2, 3, 3, 4, 5, 6])
+        outcomes = ["ok", "ok0", "st1", "st2", "st3", "st4", "st5", "st6", "wrong_tid", "bad_control"]
+        if n <= 3:
+            # enumerate all outcome vectors for short batches across seeds
+            idx = seed // 3
+            vec = []
+            for _ in range(n):
+                vec.append(outcomes[idx % len(outcomes)])
+                idx //= len(outcomes)
+        else:
+            vec = [r.choice(outcomes + ["ok"] * 6) for _ in range(n)]
+        return {"mode": "coap", "op": r.choice(["read", "read", "write", "subscribe"]), "vec": vec, "pick": r.sample(range(6), n), "reps": r.choice([1, 2]), "ops": []}
+    if x < 0.78:
         if r.random() < 0.8:
             fsize = 8 + seed % 57
             blen = (seed // 57) % 201
@@ -71,6 +84,8 @@ def execute(plan: dict, ch: Chooser) -> dict:
         return execute_func(plan, ch)
     if plan["mode"] == "ble-full":
         return execute_full(plan, ch)
+    if plan["mode"] == "coap":
+        return execute_coap(plan, ch)
     raise ValueError(plan["mode"])
 
 
@@ -259,3 +274,87 @@ def execute_full(plan: dict, ch: Chooser) -> dict:
         seams.end()
     sample = {k: plan[k] for k in ("mode", "mtu", "wwr", "vlen", "policy", "drop_at")}
     return result_of(ctx, nontrivial=state["multi"] or plan["drop_at"] is not None, sim_time=loop.time(), sample=sample)
+
+
+def execute_coap(plan: dict, ch: Chooser) -> dict:
+    from worlds import coap as wcoap
+
+    ctx = Ctx(ch)
+    seams.begin(ctx)
+    loop = SimLoop(max_iterations=200_000)
+    ctx.loop = loop
+    acc, rec = wcoap.standard_accessory(ch)
+    w = wcoap.CoapWorld(ctx, loop, acc)
+    vec = plan["vec"]
+    mixed = len(set(v.startswith("ok") for v in vec)) > 1
+
+    async def main():
+        p = wcoap.make_pairing(rec)
+        await p.list_accessories_and_characteristics()
+        readable = [c for c in acc.all_chars() if "pr" in c.perms and "pw" in c.perms and c.iid >= 0x100 + 50]
+        for rep in range(plan["reps"]):
+            chars = [readable[i % len(readable)] for i in plan["pick"]][: len(vec)]
+            ids = [(1, c.iid) for c in chars]
+            armed = {"on": True}
+
+            def item_plan(idx, opcode, iid, vec=vec, armed=armed):
+                if not armed["on"] or idx >= len(vec):
+                    return None
+                v = vec[idx]
+                if v.startswith("st"):
+                    return {"status": int(v[2:])}
+                if v == "wrong_tid":
+                    return {"wrong_tid": True}
+                if v == "bad_control":
+                    return {"bad_control": 0x04}
+                return None
+
+            acc.item_plan = item_plan
+            before = {c.iid: c.value for c in chars}
+            applied0 = len(acc.writes_applied)
+            try:
+                if plan["op"] == "read":
+                    res = await p.get_characteristics(ids)
+                elif plan["op"] == "write":
+                    newvals = {c.iid: ({"bool": not c.value, "string": str(c.value) + "x"}.get(c.fmt, None) if c.fmt in ("bool", "string") else (c.value + 1)) for c in chars}
+                    res = await p.put_characteristics([(1, c.iid, newvals[c.iid]) for c in chars])
+                else:
+                    res = await p.connection.subscribe_to(ids)
+            except Exception as e:  # noqa: BLE001
+                ctx.violate("coap-batch-raises", f"{plan['op']}/{type(e).__name__}", f"coap {plan['op']} batch with outcomes {vec} raised {e!r}")
+                return
+            finally:
+                armed["on"] = False
+            ctx.obligations += 1
+            ctx.event("coap", plan["op"], vec, sorted(res.keys()).__repr__()[:60])
+            for i, (c, v) in enumerate(zip(chars, vec)):
+                key = (1, c.iid)
+                got = res.get(key)
+                bad = not v.startswith("ok")
+                if plan["op"] == "read":
+                    if bad:
+                        if got is None or "status" not in got or not got["status"]:
+                            ctx.violate("coap-item-error-hidden", f"read/{v[:2]}", f"item {i} ({v}) of {vec}: expected a per-item error for iid {c.iid}, got {got}")
+                    else:
+                        if got is None or got.get("value") != before[c.iid]:
+                            ctx.violate("coap-item-shifted", "read", f"item {i} of {vec}: iid {c.iid} holds {before[c.iid]!r} but the result says {got} (results {res})")
+                else:
+                    if bad:
+                        if got is None or not got.get("status"):
+                            ctx.violate("coap-item-error-hidden", f"{plan['op']}/{v[:2]}", f"item {i} ({v}) of {vec}: expected a per-item error for iid {c.iid}, got {got}")
+                    elif got is not None:
+                        ctx.violate("coap-item-shifted", plan["op"], f"item {i} of {vec}: iid {c.iid} succeeded on the accessory but is reported {got}")
+            if plan["op"] == "write":
+                applied = {iid for iid, _ in acc.writes_applied[applied0:]}
+                want = {c.iid for c, v in zip(chars, vec) if not v.startswith("st")}
+                if applied != want:
+                    ctx.violate("coap-write-set", "", f"accessory applied {sorted(applied)} expected {sorted(want)} for outcomes {vec}")
+            ctx.state("coap", plan["op"], tuple(v[:2] for v in vec))
+
+    try:
+        loop.run_sim(main())
+    except SimDeadlock as e:
+        ctx.violate("deadlock", "coap", str(e))
+    finally:
+        seams.end()
+    return result_of(ctx, nontrivial=mixed or len(vec) >= 2, sim_time=loop.time(), sample={"mode": "coap", "op": plan["op"], "outcomes": vec}, units=plan["reps"])
